@@ -115,6 +115,13 @@ func LoadIndex(idx index.Index, r io.Reader, opts ...Option) error {
 
 	records := make([]index.Record, 0)
 	for {
+		// Check if we have reached the end of data payload and if so treat it as an EOF.
+		// Note, dataSize will be non-zero only if we are reading from a CARv2.
+		// This has to be checked before the first section too: the payload may hold none.
+		if dataSize != 0 && sectionOffset >= dataSize {
+			break
+		}
+
 		// Read the section's length.
 		sectionLen, err := varint.ReadUvarint(reader)
 		if err != nil {
@@ -154,12 +161,6 @@ func LoadIndex(idx index.Index, r io.Reader, opts ...Option) error {
 		}
 		// Subtract the data offset which will be non-zero when reader represents a CARv2.
 		sectionOffset -= dataOffset
-
-		// Check if we have reached the end of data payload and if so treat it as an EOF.
-		// Note, dataSize will be non-zero only if we are reading from a CARv2.
-		if dataSize != 0 && sectionOffset >= dataSize {
-			break
-		}
 	}
 
 	if err := idx.Load(records); err != nil {
